@@ -32,14 +32,15 @@ def _json_value(rng, depth=0):
     if k == 0:
         return rng.randint(-100, 100)
     if k == 1:
-        return rng.choice(["x", "a b", "", "{}", "1:2", "q\"uote", "tab?"])
+        # (JSON escapes what is not printable ASCII: such strings are representable)
+        return rng.choice(["x", "a b", "", "{}", "1:2", "q\"uote", "tab?", "M\u00fcller", "\u043a\u043b\u044e\u0447", "a\tb", "l1\nl2"])
     if k == 2:
         return rng.choice([True, False, None])
     if k == 3:
         return rng.choice([1.5, -0.25, 1e-07])
     if k in (4, 5):
         return [_json_value(rng, depth + 1) for _ in range(rng.randint(0, 3))]
-    return {rng.choice(["a", "b", "k y", "1", ""]): _json_value(rng, depth + 1)
+    return {rng.choice(["a", "b", "k y", "1", "", "cl\u00e9"]): _json_value(rng, depth + 1)
             for _ in range(rng.randint(0, 3))}
 
 
